@@ -23,6 +23,11 @@ TSetBackend == /\ Is("SetBackend")
                /\ Consume
 TTick  == Is("Tick") /\ Tick(E.d) /\ Consume
 TRound == Is("Round") /\ Round /\ real' = (E.probes > 0) /\ Stored /\ Consume
+\* a round whose time budget is shorter than a hanging backend's probe; when no such probe is due (the check is
+\* not due, the breaker does not admit, the backend is not the hanging one) it is an ordinary round
+TRoundCut == /\ Is("RoundCut")
+             /\ IF wait = 0 /\ HB!Admits /\ backend = "timeout" /\ ~pend.on THEN RoundCut ELSE (Round /\ real' = (E.probes > 0))
+             /\ Stored /\ Consume
 TProxyFailure == Is("ProxyFailure") /\ ProxyFailure /\ Stored /\ Consume
 TSlowBegin == Is("SlowBegin") /\ "skipped" \notin DOMAIN E /\ SlowBegin /\ real' = (E.probes > 0) /\ Consume
 \* the scenario asked for an overlapped check at a moment when none is due (the generator cannot know the
@@ -52,7 +57,7 @@ TRecoveryCallback == [][(act' # "Init" /\ ~StaleStore) => cb' = IF status' = "he
 TraceInit == /\ ci = 1 /\ status = "unknown" /\ cf = 0 /\ mult = 1 /\ wait = 0 /\ lastIv = 0
              /\ backend = "ok" /\ cb = 0 /\ sinceReal = 0 /\ HB!Init /\ act = "Init" /\ real = FALSE /\ pend = [on |-> FALSE, st |-> "none", from |-> "none", age |-> 0] /\ slowSeen = FALSE
              /\ scn = <<>> /\ l = 1
-TraceNext == TReset \/ TSetBackend \/ TTick \/ TRound \/ TProxyFailure \/ TSlowBegin \/ TSlowBeginSkip \/ TSlowEnd \/ KF_C07_1 \/ TFinal
+TraceNext == TReset \/ TSetBackend \/ TTick \/ TRound \/ TRoundCut \/ TProxyFailure \/ TSlowBegin \/ TSlowBeginSkip \/ TSlowEnd \/ KF_C07_1 \/ TFinal
 TraceSpec == TraceInit /\ [][TraceNext]_tvars
 HW == HWMark(l)
 =============================================================================
